@@ -86,3 +86,106 @@ package replicator
 //@ func (*replicator).generateEmitter
 //@   trusted
 //@   modifies r.emitters.evtLoadEnd, r.emitters.evtLoadAdded, r.emitters.evtLoadProgress
+
+// ---- C11: the task table and queue after aborted or failed requests ----
+// itemHash(i): the hash a queued item stands for
+//@ spec func itemHash(i Iface) V_cid_Cid = typeis(i, "*replicator.processHash") ? ptr(i, "replicator.processHash").hash : hashOf(ptr(i, "replicator.processEntry").entry)
+//@ extern (berty.tech/go-orbit-db/stores/replicator.processItem).GetHash as (i).GetHash() (c)
+//@   requires i != nil
+//@   ensures c == itemHash(i)
+//@   modifies nothing
+//@ spec func stLog(s Iface) Iface
+//@ extern (berty.tech/go-orbit-db/stores/replicator.storeInterface).OpLog as (s).OpLog() (l)
+//@   ensures l == stLog(s) && l != nil
+//@   modifies nothing
+
+//@ func (*processHash).GetHash
+//@   props C11
+//@   ensures result == p.hash
+//@   modifies nothing
+//@ func (*processEntry).GetHash
+//@   props C11
+//@   requires p.entry != nil && ref(p.entry) != 0
+//@   ensures result == hashOf(p.entry)
+//@   modifies nothing
+
+// AddHashToQueue / AddEntryToQueue: a hash already in the task table or in the log is refused and nothing
+// changes; otherwise it is queued exactly once in state added.
+//@ func (*replicator).AddHashToQueue
+//@   props C11 C10
+//@   flag nilcalls
+//@   requires r.queue != nil && r.tasks != nil && r.store != nil
+//@   ghost Q0 := deref(r.queue)
+//@   ensures exist == (old(hash in r.tasks) || inLog(stLog(r.store), hash))
+//@   ensures exist ==> deref(r.queue) == Q0 && (forall h V_cid_Cid :: (h in r.tasks) == old(h in r.tasks) && r.tasks[h] == old(r.tasks[h]))
+//@   ensures !exist ==> len(deref(r.queue)) == len(Q0) + 1 && itemHash(deref(r.queue)[len(Q0)]) == hash && (hash in r.tasks) && r.tasks[hash] == stateAdded
+//@   ensures !exist ==> (forall j Int :: 0 <= j && j < len(Q0) ==> deref(r.queue)[j] == Q0[j]) && (forall h V_cid_Cid :: h != hash ==> (h in r.tasks) == old(h in r.tasks) && r.tasks[h] == old(r.tasks[h]))
+//@ func (*replicator).AddEntryToQueue
+//@   props C11 C10
+//@   flag nilcalls
+//@   requires r.queue != nil && r.tasks != nil && r.store != nil && entry != nil && ref(entry) != 0
+//@   ghost Q0 := deref(r.queue)
+//@   ghost hash := hashOf(entry)
+//@   ensures exist == (old(hash in r.tasks) || inLog(stLog(r.store), hash))
+//@   ensures exist ==> deref(r.queue) == Q0 && (forall h V_cid_Cid :: (h in r.tasks) == old(h in r.tasks) && r.tasks[h] == old(r.tasks[h]))
+//@   ensures !exist ==> len(deref(r.queue)) == len(Q0) + 1 && itemHash(deref(r.queue)[len(Q0)]) == hash && (hash in r.tasks) && r.tasks[hash] == stateAdded
+
+// isIdle: true only when no task is added or fetching.
+//@ func (*replicator).isIdle
+//@   props C11
+//@   requires r.queue != nil
+//@   loop 1 invariant forall h V_cid_Cid :: $seen[h] ==> r.tasks[h] != stateAdded && r.tasks[h] != stateFetching
+//@   ensures result ==> (forall h V_cid_Cid :: (h in r.tasks) ==> r.tasks[h] != stateAdded && r.tasks[h] != stateFetching)
+//@   modifies nothing
+
+// idle: hands the buffered logs over exactly once (one load-end event) and empties the buffer.
+//@ func (*replicator).idle
+//@   props C11 C10
+//@   flag nilcalls
+//@   requires r.emitters.evtLoadEnd != nil && r.logger != nil
+//@   ghost E := r.emitters.evtLoadEnd
+//@   ensures len(old(r.buffer)) > 0 ==> evCount(E) == old(evCount(E)) + 1 && len(r.buffer) == 0 && unbox(evLast(E), "V_replicator_EventLoadEnd").Logs == old(r.buffer)
+//@   ensures len(old(r.buffer)) == 0 ==> evCount(E) == old(evCount(E)) && r.buffer == old(r.buffer)
+//@   modifies r.buffer, evCount(r.emitters.evtLoadEnd), evLast(r.emitters.evtLoadEnd)
+
+// processEntryDone: a fetched hash is remembered as fetched; a failed or cancelled fetch is forgotten, so the
+// hash can be requested again.
+//@ func (*replicator).processEntryDone
+//@   props C11
+//@   flag nilcalls
+//@   requires item != nil && r.queue != nil && r.tasks != nil && r.sem != nil && r.emitters.evtLoadEnd != nil && r.logger != nil
+//@   ghost h := itemHash(item)
+//@   ensures fetched ==> (h in r.tasks) && r.tasks[h] == stateFetched
+//@   ensures !fetched ==> !(h in r.tasks)
+//@   ensures forall x V_cid_Cid :: x != h ==> (x in r.tasks) == old(x in r.tasks) && r.tasks[x] == old(r.tasks[x])
+//@   ensures r.taskInProgress == old(r.taskInProgress) - 1
+//@   modifies r.taskInProgress, mapof(r.tasks), cell(r.queue, "Slice<Iface>"), r.buffer, evCount(r.emitters.evtLoadEnd), evLast(r.emitters.evtLoadEnd)
+
+// waitForProcessSlot: with a slot the first queued item is taken and marked fetching; without one (cancelled
+// context) the process still releases one queued item and forgets its hash.
+//@ func (*replicator).waitForProcessSlot
+//@   props C11
+//@   flag nilcalls
+//@   requires r.queue != nil && r.tasks != nil && r.sem != nil && r.emitters.evtLoadEnd != nil && r.logger != nil
+//@   requires len(deref(r.queue)) > 0 && (forall j Int :: 0 <= j && j < len(deref(r.queue)) ==> deref(r.queue)[j] != nil)
+//@   ghost Q0 := deref(r.queue)
+//@   ensures len(deref(r.queue)) == len(Q0) - 1 && (forall j Int :: 0 <= j && j < len(deref(r.queue)) ==> deref(r.queue)[j] == Q0[j + 1])
+//@   ensures err == nil ==> e == Q0[0] && (itemHash(Q0[0]) in r.tasks) && r.tasks[itemHash(Q0[0])] == stateFetching && r.taskInProgress == old(r.taskInProgress) + 1
+//@   ensures err != nil ==> !(itemHash(Q0[0]) in r.tasks) && r.taskInProgress == old(r.taskInProgress)
+//@   modifies r.taskInProgress, mapof(r.tasks), cell(r.queue, "Slice<Iface>"), r.buffer, evCount(r.emitters.evtLoadEnd), evLast(r.emitters.evtLoadEnd)
+
+// processItems (fetch + queue the ancestors): body not verified here (goroutines, dependency fetch); only its
+// frame and the ghost record of its outcome are assumed.
+//@ ghost field lastItemsErr(Int) Iface
+//@ func (*replicator).processItems
+//@   trusted
+//@   ensures lastItemsErr(r) == result
+//@   modifies r.buffer, "MD:V_cid_Cid:Int", "MV:V_cid_Cid:Int", "MC:V_cid_Cid:Int", "C:Slice_Iface", lastItemsErr(r)
+
+// processOne: the item taken from the queue is marked fetched only when its fetch succeeded.
+//@ func (*replicator).processOne
+//@   props C11
+//@   flag nilcalls
+//@   requires r.queue != nil && r.tasks != nil && r.sem != nil && r.emitters.evtLoadEnd != nil && r.logger != nil
+//@   requires len(deref(r.queue)) > 0 && (forall j Int :: 0 <= j && j < len(deref(r.queue)) ==> deref(r.queue)[j] != nil)
+//@   assert @ before call r.processEntryDone#1: fetched == (lastItemsErr(r) == nil) && e != nil
